@@ -11,7 +11,6 @@ import sys
 from harness import meshgen
 from harness import x_c18 as drv
 from harness.core import Machinery
-from harness.pool import pmap
 
 PROP = "C18"
 VERIF = os.path.dirname(os.path.dirname(os.path.abspath(__file__)))
@@ -254,7 +253,7 @@ def run(ctx):
 
     # 2. replay into the implementation ---------------------------------------------------
     try:
-        recs = pmap(drv.record_case, cases + big)
+        recs = drv.safe_map(cases + big)
     except BaseException:
         proc.kill()
         raise
@@ -264,7 +263,10 @@ def run(ctx):
     # 3. TLC judges -------------------------------------------------------------------------
     skipped = {r["id"]: r["skip"] for r in recs if "skip" in r}
     errs = {r["id"]: r["error"] for r in recs if "error" in r}
-    good = [r for r in recs if "skip" not in r and "error" not in r]
+    notrun = [r["id"] for r in recs if "notrun" in r]
+    if notrun and not errs:
+        raise Machinery("%d cases were not replayed although no case crashed" % len(notrun))
+    good = [r for r in recs if "skip" not in r and "error" not in r and "notrun" not in r]
     small = [r for r in good if len(r["mesh"]) <= 60]
     large = [r for r in good if len(r["mesh"]) > 60]
     failed, diag = judge(ctx, small)
@@ -304,7 +306,7 @@ def run(ctx):
         nontrivial = c.get("n_surrounded", 1) > 0
         key = (json.dumps(r["mesh"]), json.dumps(c.get("nodes", c.get("lon"))), c.get("centres", "derived"), r["id"].endswith("/jit=off"))
         ctx.count(len(r["dual"]) or 1, key if nontrivial else None)
-    ctx.note("records", {"judged": len(good), "raised": len(errs), "skipped": len(skipped), "jit_off": len(jo_cases),
+    ctx.note("records", {"judged": len(good), "raised": len(errs), "skipped": len(skipped), "not_replayed_after_crashes": len(notrun), "jit_off": len(jo_cases),
                          "planar_or_file": len(big), "skipped_reasons": sorted(set(skipped.values()))})  # fmt: skip
     ctx.exhaustive = False
     ctx.rule = (
